@@ -1,4 +1,5 @@
 import YardlModel.Rules
+import YardlModel.Wire
 
 /-!
   YardlModel.TypeRules — the rules the validator applies to each *type node* (validation_unions.go:
@@ -172,5 +173,30 @@ def nodeOk (canon : Canon) : Sur → Bool
 
 /-- the verdict on a whole type: every node obeys the rules -/
 def typeOk (canon : Canon) (t : Sur) : Bool := validType (nodeOk canon) t
+
+end Yardl.TypeRules
+
+/-! ### enum / flags definitions (validation_enums.go: validateEnums) -/
+
+namespace Yardl.TypeRules
+open Yardl
+
+def distinctInt : List Int → Bool
+  | [] => true
+  | x :: r => !r.contains x && distinctInt r
+
+/-- symbols are camelCase member names and distinct, values are distinct and fit the base type, the base type is an
+    integer type (`none`: the default `int32`). Symbols are assumed to stay distinct in UPPER_SNAKE_CASE (true of
+    all-lowercase symbols; the case conversion is not modelled). -/
+def enumOk (base : Option Prim) (values : List (String × Int)) : Bool :=
+  values.all (fun v => memberName v.1) &&
+  distinctStr (values.map (·.1)) &&
+  distinctInt (values.map (·.2)) &&
+  (match (base.getD .int32) with
+   | .int8 | .int16 | .int32 | .int64 | .uint8 | .uint16 | .uint32 | .uint64 | .size =>
+     (match (base.getD .int32).range with
+      | some (lo, hi) => values.all fun v => lo ≤ v.2 && v.2 ≤ hi
+      | none => false)
+   | _ => false)
 
 end Yardl.TypeRules
